@@ -28,6 +28,22 @@ class C04(F.PropCheck):
     IN = {'CFG': 0, 'ADV': 1, 'WIFI': 2, 'CONNCB': 3, 'DISCCB': 4, 'RECV': 5, 'SENTMODE': 6, 'SENTRES': 7, 'LOCAL': 8}
     OUT = {0: 'WIFISTART', 1: 'CONNECT', 2: 'DISCONNECT', 3: 'FRESH', 4: 'WIRE', 5: 'JUNK', 6: 'RESTART', 7: 'STATE', 8: 'FUEL', 9: 'RX', 10: 'DISCD'}
     quick_cases = 2000; thorough_cases = 50000
+    trusted_extra = ['C04 driver harness/drv/c04.c + harness/wrap/c04_wifi_wrap.c: model of the SDK TCP client around the server connection '
+                     '(connect_cb only for a pending espconn_connect, disconnect_cb only for a live/closing connection, data only on a live one; '
+                     'espconn_sent answers the scripted "live" result on a live connection and the CFG "dead" result otherwise); '
+                     'wifi_station_connect() sets the station status to CONNECTING until a WIFI event',
+                     'gen/grp_c04.py: call-site list and guard classification by patterns over gcc -E output (lexical domination by '
+                     'if(is_registered()), by `registered = 1` in the same case section, or by guarded callers only)',
+                     'frame payload contents are not modelled (zeros of the measured size); register payload checked by the monitor only']
+    assumptions = ['SDK callback discipline env_allows (Env_disconnect_before_connect)', 'server address is an IP literal (DNS not modelled)',
+                   'e-mail configured (otherwise the device never registers)', 'not in configuration mode / firmware update',
+                   'uptime polled at least once before the first wrap of the 32-bit microsecond counter',
+                   'reading: direct replies to server requests (set-value result, channel-state result, calcfg result, config result) are not device-originated traffic']
+    rule = ('histories of 1-4 sessions (wifi up, connect callback, register result ok / 28 refusal codes / silence / noise, local api calls, server '
+            'messages incl. cut and split frames and garbage, session end by disconnect callback / stalled link / silence / wifi down / nothing) '
+            'with random noise events (all event kinds) inserted with probability 0..1; dead-connection send result in {-12,-11,-5,-7,0}; '
+            'lateness scripts; aged devices; non-trivial = at least one connect callback delivered; distinct by sha256 of the event text')
+    def nontrivial(self, case, io): return any(o[0] == 'FRESH' for o in io[1])
     def build_impl(self): return build_driver()
     def compare(self, case, mo, io):
         # payload bytes of WIRE lines are not modelled (zeros of the right size in the model)
@@ -204,7 +220,8 @@ class C04(F.PropCheck):
         nsess = rng.choice([1, 2, 2, 3, 4])
         for sidx in range(nsess):
             # wifi comes up, the status poll notices, TCP connects
-            emit([self.adv(rng)]); emit([('WIFI', [5], b'')]); emit([('ADV', [rng.choice([200000, 250000, 400000])], b'')])
+            # (after a reconnect the station status is CONNECTING until the environment reports GOT_IP; the 200 ms poll must see the change)
+            emit([self.adv(rng, 200000 if sidx else 0)]); emit([('WIFI', [5], b'')]); emit([('ADV', [rng.choice([200000, 250000, 400000])], b'')])
             emit([('CONNCB', [], b'')])
             if rng.random() < 0.8: emit([('ADV', [rng.choice([50000, 100000, 150000, 300000, 700000])], b'')])
             # registration answer
